@@ -316,3 +316,27 @@ def _run(case, rec):
                     rec.viol(SITE_TT, 'translation_dependent', f'sample at {S}: 2theta {float(tt.values[k])!r} vs untranslated {same!r}', sample=list(S), offset=o)
             else:
                 rec.cls('translation_inexact')
+
+
+# ---------------------------------------------------------------------------------------
+# layout / reuse exploration shared by the kernel properties (props/layouts.py): every combination of operand layouts
+# (0-d, 1-d over either of two dims, 2-d, 2-d transposed) must equal the element-wise 0-d calls, also after every operand
+# has been overwritten in place and the kernel is called again.
+
+from props import layouts as _layouts  # noqa: E402
+
+_LAYOUT_SITES = ['conversion.beamline.L1', 'conversion.beamline.L2', 'conversion.beamline.straight_incident_beam', 'conversion.beamline.straight_scattered_beam', 'conversion.beamline.total_beam_length', 'conversion.beamline.total_straight_beam_length_no_scatter', 'conversion.beamline.two_theta', 'conversion.beamline.two_theta/long', 'conversion.beamline.two_theta/unit-m', 'conversion.beamline.two_theta/unit-dimensionless', 'conversion.beamline.two_theta/unit0d-dimensionless']
+_cases_main, _run_case_main = cases, run_case
+RULE = RULE + ' Layout cases: every combination of operand layouts (0d / 1-d a / 1-d b / 2-d ab / 2-d stored ba) per kernel x unit-dtype variant, each followed by an in-place update of all operands and a second call.'
+REQUIRED_CLASSES = [*REQUIRED_CLASSES, 'layout_ok', 'reuse_after_inplace_update_ok', 'layout_transposed_operand', 'repeat_call_identical']
+
+
+def cases(tier):
+    return _cases_main(tier) + _layouts.cases_for(_LAYOUT_SITES, variants=(0, 1, 2, 3, 4) if tier == 'thorough' else (0, 1, 3))
+
+
+def run_case(case, rec):
+    if case.get('kind') == 'layout':
+        _layouts.run_layout_case(case, rec)
+    else:
+        _run_case_main(case, rec)
